@@ -172,6 +172,13 @@ C15_ResetDiscards ==
 C15_InitStores ==
   [][(l <= N /\ Trace[l].ev = "CliInit" /\ ~Trace[l].err /\ Trace[l].fan \in cf.fans) =>
        (db'[Trace[l].fan].map /\ (cf.hasRpm[Trace[l].fan] => db'[Trace[l].fan].data))]_mvars
+\* a start that characterised a fan (swept its PWM map / measured its RPM curve) and got as far as regulating it has stored
+\* what it found: at the end of that process the database holds it (else the next start analyses the fan again)
+C15_StartStores ==
+  [][(l <= N /\ Trace[l].ev = "Final" /\ ~Trace[l].crashed) =>
+       \A f \in cf.fans :
+          /\ (cnt[f].sweeps > 0 /\ reg[f] => db'[f].map)
+          /\ (cnt[f].meas > 0 /\ reg[f] => db'[f].data)]_mvars
 \* C16 at the level of the device: while a fan is being swept or measured no OTHER fan's PWM is written, unless that
 \* other fan is regulating (its control loop runs) or is being handed back - analysis steps that bypass the hook points
 \* (a measurement restarted outside the initialization sequence, ...) still show as register writes
